@@ -196,7 +196,9 @@ def c10_2(ctx: Ctx) -> RuleResult:
     rt = X.force_inline(X.return_term(f), f)
     seen = set()
     steps = []
-    for s_ in X.closure(rt):
+    from ..util import framed_closure
+
+    for s_ in framed_closure(ctx, f, rt):
         if s_[0] == "call" and s_[1][0] == "func":
             # a nested helper that was not inlined (e.g. recursive): look at its own return value
             continue
@@ -264,7 +266,11 @@ def c10_3(ctx: Ctx) -> RuleResult:
         raise AnalysisError("bound handler is never called")
     for g, c in sites:
         t = X.at(g, c)
-        a = [norm(x) for x in t[2]]
+        from ..callgraph import positional_args
+
+        # arguments in the order of the handler's parameters, passed by position or by keyword
+        pa = positional_args(f, t)
+        a = [norm(x) for x in pa] if all(x is not None for x in pa) else [norm(x) for x in t[2]]
         vpar = [("param", g.qualname, p) for p in g.params if p == "variables"]
         m = match(a[0], add(V("v"), mul(V("mag"), V("s")))) if a else None
         ok = m is not None and vpar and m["v"] == vpar[0]
@@ -276,7 +282,7 @@ def c10_3(ctx: Ctx) -> RuleResult:
                     mag_ok = True
                     samp_ok = any(s_[0] == "call" and s_[1][0] == "attr" and s_[1][2] == "generate_samples" for _h, s_ in deep_subterms(ctx, g, sm, 3))
         res.add(g, c, "the value handed to the bound handler is variables + config.gradient.perturbation_magnitudes * <sampler output>", bool(ok and mag_ok and samp_ok),
-                "" if ok and mag_ok and samp_ok else f"perturbed value is `{show(t[2][0], 110) if t[2] else '?'}`", construct=f"{g.name}: perturbation formula")
+                "" if ok and mag_ok and samp_ok else f"perturbed value is `{show(a[0], 110) if a else '?'}`", construct=f"{g.name}: perturbation formula")
         roles = len(a) == 4 and ends_with_attrs(a[1], "variables", "lower_bounds") and ends_with_attrs(a[2], "variables", "upper_bounds") and ends_with_attrs(a[3], "gradient", "boundary_types")
         res.add(g, c, "bounds and boundary types are passed in their roles (lower, upper, types)", roles, "" if roles else f"arguments `{[show(x, 40) for x in a[1:]]}`", construct=f"{g.name}: handler arguments")
         # samples of several samplers are summed
